@@ -217,6 +217,11 @@ def configs(tier):
                     continue
                 out.append({'routine': 'crossval', 'n_rdm': nr, 'n_cond': nc, 'method': method, 'gen': gen,
                             'models': ['fixed', 'fitted']})
+    # a number of conditions that the folds do not divide (surplus condition in the first fold)
+    if not big:
+        for gen in ('sets_k_fold', 'sets_k_fold_pattern'):
+            out.append({'routine': 'crossval', 'n_rdm': 3, 'n_cond': 7, 'method': 'cosine', 'gen': gen,
+                        'models': ['fixed', 'fitted']})
     # (array-typed, increasing pattern descriptor used for the folds: shares memory with the data)
     for gen in ('sets_k_fold', 'sets_k_fold_pattern'):
         out.append({'routine': 'crossval', 'n_rdm': 3, 'n_cond': 6, 'method': 'cosine', 'gen': gen,
@@ -683,6 +688,21 @@ def _judge_folds(ctx, sig, case, cfg, spec, fitter, evals, train_set, test_set, 
         return fit_ptr
     for f, (tr, te) in enumerate(zip(train_set, test_set)):
         skipped = tr[0].n_rdm == 0 or te[0].n_rdm == 0 or tr[0].n_cond <= 2 or te[0].n_cond <= 2
+        # "fitted on that fold's training set only": no (RDM, condition pair) cell of the test fold is
+        # part of the training data - unless nothing is cross-validated (k_rdm = k_pattern = 1, where
+        # the generators document train == test)
+        try:
+            tr_r, tr_c = selfdesc.read_ids(tr[0])
+            te_r, te_c = selfdesc.read_ids(te[0])
+        except Exception:
+            tr_r = None
+        if tr_r is not None and not (sorted(tr_r) == sorted(te_r) and sorted(tr_c) == sorted(te_c)):
+            if set(tr_r) & set(te_r):
+                shared_c = set(tr_c) & set(te_c)
+                if len(shared_c) >= 2:
+                    ctx.fail(sig + '|test-cells-in-training-set', case,
+                             'fold %d: RDMs %r are in the training and in the test set and so are the '
+                             'conditions %r' % (f, sorted(set(tr_r) & set(te_r)), sorted(shared_c)))
         for j, s in enumerate(spec):
             if skipped:
                 if not math.isnan(evals[j, f]):
